@@ -8,6 +8,7 @@ import (
 	"go/ast"
 	"go/constant"
 	"go/parser"
+	"go/printer"
 	"go/token"
 	"go/types"
 	"os"
@@ -664,6 +665,18 @@ func (c *specCtx) ident(name string) TV {
 			return TV{c.results[i], c.resultType(i)}
 		}
 	}
+	if tv, ok := c.bound[name]; ok {
+		return tv
+	}
+	if tv, ok := c.names[name]; ok {
+		return tv
+	}
+	// SSA locals by source name: the closest dominating phi (or debug reference) carrying that name
+	if c.f != nil && c.f.fn != nil && c.f.curBlock != nil {
+		if tv, ok := c.localByName(name); ok {
+			return tv
+		}
+	}
 	if tv, ok := c.lookupName(name); ok {
 		return tv
 	}
@@ -809,7 +822,7 @@ func (c *specCtx) index(base, idx TV) TV {
 			es := so.sortOf(t.Elem())
 			e := fe.comp(c.cur, "E_"+sortKey(es), arrSort(SInt, arrSort(SInt, es)))
 			i := c.coerce(idx, SInt)
-			return TV{tSelect(tSelect(e, slRef(base.T)), tAdd(slOff(base.T), i)), t.Elem()}
+			return TV{tSelect(tSelect(e, slRef(base.T)), absIndex(slOff(base.T), i)), t.Elem()}
 		case *types.Map:
 			key := fe.eng.mapKeyOf(t)
 			ks, vs := so.sortOf(t.Key()), so.sortOf(t.Elem())
@@ -1020,10 +1033,19 @@ func (c *specCtx) call(x *ast.CallExpr) TV {
 		if len(x.Args) == 4 {
 			lo, hi := arg(1), arg(2)
 			q := "q_" + id.Name
-			c.bound[id.Name] = TV{Term{q, SInt}, types.Typ[types.Int]}
+			qt := Term{q, SInt}
+			// When the body indexes exactly one slice with the bound variable, quantify over the absolute position in the
+			// backing array instead: the element access becomes (select row q), a trigger every ground access matches.
+			kv := TV{qt, types.Typ[types.Int]}
+			if base := c.singleIndexedBase(x.Args[3], id.Name); base != nil {
+				if bv := c.eval(base); bv.T.Sort == SSlice {
+					kv = TV{Term{"(- " + q + " " + slOff(bv.T).S + ")", SInt}, types.Typ[types.Int]}
+				}
+			}
+			c.bound[id.Name] = kv
 			body := c.eval(x.Args[3])
 			delete(c.bound, id.Name)
-			rng := tAnd(tLe(c.coerce(lo, SInt), Term{q, SInt}), tLt(Term{q, SInt}, c.coerce(hi, SInt)))
+			rng := tAnd(tLe(c.coerce(lo, SInt), kv.T), tLt(kv.T, c.coerce(hi, SInt)))
 			if name == "forall" {
 				return TV{Term{fmt.Sprintf("(forall ((%s Int)) %s)", q, tImp(rng, body.T).S), SBool}, boolT}
 			}
@@ -1042,6 +1064,27 @@ func (c *specCtx) call(x *ast.CallExpr) TV {
 			return TV{Term{fmt.Sprintf("(%s ((%s %s)) %s)", name, q, srt, body.T.S), SBool}, boolT}
 		}
 		engErr("bad quantifier arity")
+	case "elem": // elem(s, k): k-th element of a []interface{} value in the current heap
+		sl, k := arg(0), arg(1)
+		if sl.T.Sort != SSlice {
+			engErr("elem() on sort %s", sl.T.Sort)
+		}
+		e := fe.comp(c.cur, "E_Val", arrSort(SInt, arrSort(SInt, SVal)))
+		return TV{tSelect(tSelect(e, slRef(sl.T)), absIndex(slOff(sl.T), c.coerce(k, SInt))), nil}
+	case "flat": // flat(args): the single array argument's elements, or the arguments themselves
+		a := arg(0)
+		e := fe.comp(c.cur, "E_Val", arrSort(SInt, arrSort(SInt, SVal)))
+		first := tSelect(tSelect(e, slRef(a.T)), slOff(a.T))
+		cond := tAnd(tEq(slLen(a.T), tInt(1)), Term{"((_ is VArr) " + first.S + ")", SBool})
+		return TV{tIte(cond, Term{"(varr " + first.S + ")", SSlice}, a.T), a.Typ}
+	case "store":
+		a, i, v := arg(0), arg(1), arg(2)
+		return TV{tStore(a.T, c.coerce(i, arrayIdxSort(a.T.Sort)), c.coerce(v, arrayElemSort(a.T.Sort))), nil}
+	case "select":
+		a, i := arg(0), arg(1)
+		return TV{tSelect(a.T, c.coerce(i, arrayIdxSort(a.T.Sort))), nil}
+	case "ref": // ref(slice): its backing-array reference
+		return TV{slRef(arg(0).T), types.Typ[types.Int]}
 	case "fresh": // fresh(p): p was not allocated in the old state
 		v := arg(0)
 		pt, ok := v.Typ.Underlying().(*types.Pointer)
@@ -1142,4 +1185,125 @@ var valCtors = map[string]ctorSig{
 	"vbool": {[]Sort{SVal}, SBool}, "vf64": {[]Sort{SVal}, SF64}, "vi64": {[]Sort{SVal}, SBV64}, "vint": {[]Sort{SVal}, SInt}, "vstr": {[]Sort{SVal}, SStr},
 	"vrunes": {[]Sort{SVal}, SSlice}, "varr": {[]Sort{SVal}, SSlice}, "vobj": {[]Sort{SVal}, SInt}, "vpref": {[]Sort{SVal}, SInt}, "vptag": {[]Sort{SVal}, SInt},
 	"mkSlice": {[]Sort{SInt, SInt, SInt, SInt}, SSlice},
+}
+
+func (c *specCtx) localByName(name string) (TV, bool) {
+	f := c.f
+	var best ssa.Value
+	var bestBlock *ssa.BasicBlock
+	for _, b := range f.fn.Blocks {
+		if !(b == f.curBlock || b.Dominates(f.curBlock)) {
+			continue
+		}
+		for _, in := range b.Instrs {
+			var v ssa.Value
+			switch x := in.(type) {
+			case *ssa.Phi:
+				if x.Comment == name {
+					v = x
+				}
+			case *ssa.DebugRef:
+				if id, ok := x.Expr.(*ast.Ident); ok && id.Name == name && !x.IsAddr {
+					if _, isParam := x.X.(*ssa.Parameter); !isParam {
+						v = x.X
+					}
+				}
+			}
+			if v == nil {
+				continue
+			}
+			if _, has := f.vals[v]; !has {
+				if _, isConst := v.(*ssa.Const); !isConst {
+					continue
+				}
+			}
+			if bestBlock == nil || bestBlock.Dominates(b) {
+				best, bestBlock = v, b
+			}
+		}
+	}
+	if best == nil {
+		return TV{}, false
+	}
+	return TV{c.fe.val(best), best.Type()}, true
+}
+
+// absIndex computes off+idx, cancelling the (- q off) form produced for bound variables.
+func absIndex(off, idx Term) Term {
+	pre := "(- "
+	suf := " " + off.S + ")"
+	if strings.HasPrefix(idx.S, pre) && strings.HasSuffix(idx.S, suf) {
+		q := idx.S[len(pre) : len(idx.S)-len(suf)]
+		if !strings.ContainsAny(q, " ()") {
+			return Term{q, SInt}
+		}
+	}
+	// (+ (- q off) c)  or  (- (- q off) c)
+	for _, op := range []string{"+", "-"} {
+		p := "(" + op + " (- "
+		if strings.HasPrefix(idx.S, p) {
+			rest := idx.S[len(p):]
+			if i := strings.Index(rest, suf+" "); i > 0 {
+				q := rest[:i]
+				cst := strings.TrimSuffix(rest[i+len(suf)+1:], ")")
+				if !strings.ContainsAny(q, " ()") && !strings.ContainsAny(cst, " ()") {
+					return Term{"(" + op + " " + q + " " + cst + ")", SInt}
+				}
+			}
+		}
+	}
+	return tAdd(off, idx)
+}
+
+// singleIndexedBase: if every slice access in body that mentions the bound variable `name` in its index has the same base
+// expression (by source text), returns that base.
+func (c *specCtx) singleIndexedBase(body ast.Expr, name string) ast.Expr {
+	var bases []ast.Expr
+	mentions := func(e ast.Expr) bool {
+		found := false
+		ast.Inspect(e, func(n ast.Node) bool {
+			if id, ok := n.(*ast.Ident); ok && id.Name == name {
+				found = true
+			}
+			return true
+		})
+		return found
+	}
+	ast.Inspect(body, func(n ast.Node) bool {
+		switch x := n.(type) {
+		case *ast.IndexExpr:
+			if mentions(x.Index) {
+				bases = append(bases, x.X)
+			}
+		case *ast.CallExpr:
+			if id, ok := x.Fun.(*ast.Ident); ok && id.Name == "elem" && len(x.Args) == 2 && mentions(x.Args[1]) {
+				bases = append(bases, x.Args[0])
+			}
+			if id, ok := x.Fun.(*ast.Ident); ok && (id.Name == "forall" || id.Name == "exists") && len(x.Args) > 0 {
+				if qid, ok := x.Args[0].(*ast.Ident); ok && qid.Name == name {
+					return false // shadowed
+				}
+			}
+		}
+		return true
+	})
+	if len(bases) == 0 {
+		return nil
+	}
+	txt := c.fe.eng.exprString(bases[0])
+	for _, b := range bases[1:] {
+		if c.fe.eng.exprString(b) != txt {
+			return nil
+		}
+	}
+	if mentions(bases[0]) {
+		return nil
+	}
+	return bases[0]
+}
+
+func (e *Engine) exprString(x ast.Expr) string {
+	var sb strings.Builder
+	printer.Fprint(&sb, token.NewFileSet(), x)
+	return sb.String()
 }
